@@ -20,7 +20,7 @@ CHECKS = {
    level="exploration",
    text="size()==bytes-written oracle over generated value trees for every hand-written length protocol in three usage patterns (fresh instance; same instance sizes then writes; value k+1 sized after value k written), all buffer kinds.",
    design="6/C04",
-   note="Runtime (hand-written) half; the generated-type half (Message::size vs encode) is added by the generated-code pipeline when registered. Trusted: byte counting at the flattened buffer.",
+   note="Hand-written length protocols (value interpreter) + generated types (Message::size vs Message::encode on all corpora/configurations, incl. values carrying retained unknown fields). Trusted: byte counting at the flattened buffer.",
    technique="runtime monitoring: length walk mirrored call-for-call against the write walk"),
  "C07": dict(
    level="exploration",
@@ -32,20 +32,50 @@ CHECKS = {
    level="fault_enumeration",
    text="Complete enumeration, per base message, of truncations, single-bit flips, length/count boundary overwrites and type-code replacements (plus unstructured input) fed to the safe decoders (read walk, skip, read_message_begin, ApplicationException::decode; sync+async; binary, binary_le, compact) under a panic monitor, counting allocator, CPU meter, poll-budget executor and process supervisor; strict prefixes must be rejected.",
    design="6/C09",
-   note="Runtime (hand-written) half; generated decoders are added by the generated-code pipeline when registered. Bounds: alloc <= 64 KiB + 256 x len, CPU <= 20 ms + 50 us/byte, polls <= 16 x len + 256. Unchecked reader excluded by its contract.",
+   note="Hand-written decoders + every generated type's decode/decode_async (2 MiB stack, F_T = max(256, 4 x size_of::<T>)). Bounds: alloc <= 64 KiB + 256 x len, CPU <= 20 ms + 50 us/byte, polls <= 16 x len + 256. Unchecked reader excluded by its contract.",
    technique="runtime monitoring: fault enumeration under allocator/panic/CPU/poll monitors in supervised workers"),
  "C11": dict(
    level="exploration",
    text="Differential oracle unchecked vs checked binary codec inside the documented contract (exact-size window from the checked size; complete reference-encoded input): identical bytes, identical values and consumed counts, identical skip counts for a partial reader; guard regions around the window; dev-profile ub_checks abort => supervised worker death => violation.",
    design="6/C11",
-   note="Runtime half; generated types with keep_unknown_fields and the ASan/Miri layers are added in later commits. Guard regions cannot see out-of-window reads; ub_checks cover get_unchecked only.",
+   note="Hand-written codec + generated types (decode equality/consumed bytes, encode into guarded exact-size windows, half of the values carry unknown fields skipped or retained). ASan/Miri layers: thorough tier. Guard regions cannot see out-of-window reads; ub_checks cover get_unchecked only.",
    technique="runtime monitoring: differential oracle + guard regions + std ub_checks, supervised processes"),
  "C12": dict(
    level="exploration",
    text="Sync-vs-async differential under a scripted AsyncRead and a poll-counting executor: value/error agreement, bytes handed out == bytes consumed in memory (sentinel stays unread), poll bound; exhaustive one- and two-split schedules for messages <= 48 bytes; faulted inputs; partial reader drives the async skipper on every wire type.",
    design="6/C12",
-   note="Runtime half (interpreter over the async protocols); generated decode_async added by the generated-code pipeline. The schedule space is exhaustive only for <= 2 splits of short messages.",
+   note="Interpreter over the async protocols + generated decode_async of every type. The schedule space is exhaustive only for <= 2 splits of short messages.",
    technique="runtime monitoring: deterministic executor + scripted stream, differential oracle, exhaustive small schedule space"),
+ "C02": dict(
+   level="exploration",
+   text="Bytes-only differential oracle over programs x inputs: G_thrift corpora compiled by pilota-build (child process) in {single, split, keep_unknown_fields}; every declared/synthesised type driven through Message::{decode,encode,decode_async,size} with reference-encoded schema-directed values on 4 protocols; checked binary is the pivot; typed equality and async==sync on top.",
+   design="6/C02",
+   note="Trusted: reference codecs, the schema model (defaults/requiredness), G_thrift. Quick = 2 fixed corpora (values vary with VERIF_SEED); thorough adds seed-derived corpora. NaN/-0.0 doubles are not generated for typed values.",
+   technique="runtime monitoring: differential oracle (reference codec + schema model) over generated programs"),
+ "C08": dict(
+   level="exploration",
+   text="Executable tolerant-reader statement: writer-schema evolution operators applied to schema-directed values, expected outcome (Ok(projection) / Err) computed by the schema model, compared with what every generated decoder does on 4 protocols; metamorphic strip-unknown check.",
+   design="6/C08",
+   note="Retyping is applied to fields and union variants, not container element types; a required field WITH an IDL default that is absent may fail or fall back (not judged); union values carrying several fields that are not all known variants are not judged.",
+   technique="runtime monitoring: schema-evolution generator + projection oracle"),
+ "C13": dict(
+   level="exploration",
+   text="Retention oracle on keep_unknown_fields builds: unknown fields of every wire type at every position (top, nested struct, list element, map value; method-argument types), decode with checked+unchecked binary, re-encode with both, reference-decode, compare id-keyed tree with the original (defaults filled, unknown fields verbatim); every 4th case has no unknown field.",
+   design="6/C13",
+   note="Argument/result structs synthesised for methods are not 'types in the file': unknown fields are placed inside the declared types they carry. Set elements and map keys are not given unknown fields.",
+   technique="runtime monitoring: differential oracle vs reference codec on retained bytes"),
+ "C19": dict(
+   level="fault_enumeration",
+   text="Leak oracle (per-thread counting allocator): for every failing input of the fault enumeration (every truncation point, bit flips, length/count/type corruptions) of every generated type, binary+compact, sync+async: live bytes must not grow between repeated decode+drop cycles (input buffer included).",
+   design="6/C19",
+   note="Thrift generated types; protobuf types are added with the protobuf pipeline. Growth between repetitions (after a warm-up) is the observable; LSan/valgrind second opinion in the thorough tier.",
+   technique="runtime monitoring: counting allocator over enumerated failing decodes, supervised workers"),
+ "C20": dict(
+   level="exploration",
+   text="Default oracle over programs: for every generated struct/exception/argument struct of the corpora (incl. a defaults-heavy corpus) reference-decode(encode(T::default())) equals the default computed by the schema model; every field id has its declared wire type; decode(empty struct)==default() when it succeeds.",
+   design="6/C20",
+   note="Trusted: literal evaluation in the schema model (bool/double from int, enum by name/number, const by reference, list/set/map/[] literals). Struct-literal defaults are not generated yet.",
+   technique="runtime monitoring: schema-model oracle over generated programs"),
 }
 
 NOT_YET = "check not built yet (work in progress; see DESIGN.md section 6 for the planned monitor)"
@@ -79,7 +109,7 @@ def main():
         },
         "engines": [
             {"name": "harness", "path": "/verif/harness", "serves_properties": sorted(CHECKS.keys()),
-             "kind_free_text": "cargo workspace (refmodel: independent reference codecs + generators; monitors: counting allocator, scripted AsyncRead/executor, panic capture, process supervisor; rtcheck: runtime checks)"},
+             "kind_free_text": "cargo workspace (refmodel: independent reference codecs, schema model, G_thrift, fault operators; monitors: counting allocator, scripted AsyncRead/executor, panic capture, process supervisor, vmerge; pcodec: value interpreter + codec/buffer matrix; rtcheck: runtime checks; pbuild: pilota-build as a child process; gentool/genorch + gencase: generated-code case crates and their checks)"},
         ],
         "checks": checks,
         "notes": "Runtime monitoring and sanitizers only. Verdicts are three-valued: exit 0 held-on-observed, exit 1 VIOLATION, exit 3 INCONCLUSIVE (harness error / coverage floor not met). Known findings: /verif/known_findings.txt.",
